@@ -579,8 +579,6 @@ class Signature:
             (
                 tuple(self.parameters.items()),
                 self.return_value,
-                self.impl,
-                self.callable,
                 self.is_asynq,
                 self.has_return_annotation,
                 self.allow_call,
